@@ -122,9 +122,13 @@ def run(ctx):
             ctx.report(what, {"stream": stream, "line": ln, "op": op, "impl": im, "model": mo,
                               "replay": "VERIF_SEED=%d ./check C05 %s" % (ctx.seed, ctx.tier)})
         # property-level oracle directly on the implementation's answers (independent of the model)
+        n_crash = 0
         for op, im in zip(op_lines, impl_lines):
             if im.startswith("crash:"):
-                ctx.report("real code panicked: " + im[:300], {"op": op, "impl": im})
+                n_crash += 1
+                if n_crash <= 2:   # a few witnesses are enough; keep room for the other reports
+                    ctx.report("the real connection handler panicked on these client bytes (production has no recover "
+                               "there: the daemon would die): " + im[:300], {"stream": stream, "op": op, "impl": im})
             if "LOSS-OR-DUP" in im or "NOT-A-PREFIX" in im:
                 ctx.report("a wrapper lost, duplicated or reordered bytes: the concatenation of everything it handed out "
                            "(Read / TakeRelaySegments / CopyRelayRemainder / WriteTo, in this order: " + op.split()[-1] +
